@@ -7,10 +7,11 @@
    status value (optional members present, absent or null, any member order,
    unknown members, sample of any length) is mapped to exactly that status.
    serde_json::from_str (JSON text -> value) is the trusted step in between.
-   PARTIAL: the Bedrock pong and legacy kick-packet round trips are decided per
-   generated state by the correspondence run against Spec/MinecraftSpec.v. *)
+   The Bedrock pong round trip is proved for every status (c03_bedrock_roundtrip).
+   PARTIAL: the legacy kick-packet round trips are decided per generated state by
+   the correspondence run against Spec/MinecraftSpec.v. *)
 From GD Require Import Base.Prelude Model.Strings Model.StrOps Model.Buffer Model.Net Model.Valve Model.Gamespy Model.View Model.Minecraft.
-From GD Require Import Spec.Rand Spec.MinecraftSpec Proofs.MinecraftProofs.
+From GD Require Import Spec.Rand Spec.MinecraftSpec Proofs.MinecraftProofs Proofs.MinecraftRoundtrip.
 
 Theorem c03_auto_java_first : forall json port t rs n r n1,
   query_java json port t rs n = (Ok r, n1) -> query_auto json port t rs n = (Ok r, n1).
@@ -59,6 +60,14 @@ Theorem c03_java_status_decodes : forall s, wf_java_status s = true ->
   java_of_value (status_value s) = Ok (java_expected s).
 Proof. exact java_status_decodes. Qed.
 Print Assumptions c03_java_status_decodes.
+
+(* every Bedrock pong (6 to 12+ fields, with or without the trailing separator,
+   any edition / name / version text without ';' and NUL, counts below 2^32,
+   any of the five game modes or none) decodes to exactly that status *)
+Theorem c03_bedrock_roundtrip : forall s, wf_bedrock s ->
+  run_r bedrock_parse (bedrock_pong s) = Ok (bedrock_expected s).
+Proof. exact bedrock_roundtrip. Qed.
+Print Assumptions c03_bedrock_roundtrip.
 
 (* generated statuses meet the hypothesis; and, as tests, the Bedrock and
    legacy formats decode on generated states *)
